@@ -179,6 +179,9 @@ func TestDrv_C11(t *testing.T) {
 						m.Add(&vegeta.Result{Seq: uint64(i), Code: 200, Timestamp: time.Unix(1600000000, int64(i)), Latency: time.Duration(v)})
 					}
 					m.Close()
+					if order == 1 {
+						m.Close() // closing again must not move a percentile
+					}
 					tr.Emit("Reset", KV{"n": n, "allequal": sorted[0] == sorted[n-1], "shape": shapeName, "order": order})
 					L := m.Latencies
 					tr.Emit("Summary", KV{"min": Big(uint64(L.Min)), "p50": Big(uint64(L.P50)), "p90": Big(uint64(L.P90)),
